@@ -450,7 +450,11 @@ def main(tier="quick", seed=0):
         pool = [s for s in scenarios if pc.applicable(e, s)]
         for n_, i in enumerate(rng.choice(len(pool), size=min(per_cost[e.cost], len(pool)), replace=False)):
             k = 4 if quick else 7
-            pick = [encs_all[0]] + [encs_all[int(j)] for j in rng.choice(np.arange(1, len(encs_all)), size=k - 1, replace=False)]
+            # (the n-th group of a configuration always contains the n-th encoding: every encoding is met by every
+            #  configuration that has at least as many groups as there are encodings)
+            forced = 1 + n_ % (len(encs_all) - 1)
+            rest = [int(j) for j in rng.permutation(np.arange(1, len(encs_all))) if int(j) != forced][:k - 2]
+            pick = [encs_all[0], encs_all[forced]] + [encs_all[j] for j in rest]
             jobs.append(("pool", e.name, pool[int(i)], int(rng.integers(0, 1000)), n_ % 2, pick))
     # larger seeded pools (6-10 samples), mostly with an index list that leaves unlabeled samples among the
     # non-candidates: code that looks at the labels of "the other samples" meets the sentinel only there
